@@ -564,7 +564,14 @@ def check_tsd_client(model, api, specs, trace, oc, out_v):
             imported = set()
             for m_ in _re.finditer(r'import\s*\{([^}]*)\}\s*from', code):
                 imported.update(x.strip() for x in m_.group(1).split(',') if x.strip())
+            # what "declared" means is taken from the tsd_types output for the same spec (one file, all namespaces): the types backend adds
+            # helper declarations of its own (<Leaf>Reference for subtype trees) that the client may name
             declared_names = {(n, d.name) for n, fi, di, d in mm.all_defs(model) if isinstance(d, (Struct, Union, Alias))}
+            tt = impl.backend_outputs(impl.compile_specs(specs).api, ['tsd_types'], args_override={'tsd_types': ['tpl.d.ts', 'all.d.ts']})['tsd_types']
+            if 'crash' not in tt and 'all.d.ts' in tt['files']:
+                tmods, _terr = scan_ts(tt['files']['all.d.ts'].decode('utf-8', 'replace'))
+                for tn, tm in (tmods or {}).items():
+                    declared_names |= {(tn, x) for x in tm['interfaces']} | {(tn, x) for x in tm['types']}
             for m_ in _re.finditer(r'(?<![\w.])([A-Za-z_]\w*)\.([A-Za-z_]\w*)', code):
                 nsn_, nm_ = m_.group(1), m_.group(2)
                 if nsn_ not in {ns.name for ns in model.namespaces}:
